@@ -264,9 +264,12 @@ func runCluster(c *corr.Ctx) error {
 		if _, err := fmt.Sscanf(one, "%d,%d,%d,%s", &sp.Seed, &sp.Steps, &sp.Regions, &sp.Profile); err != nil {
 			return err
 		}
-		cs, _, err := clusterCase(c, sp, 0)
+		cs, st, err := clusterCase(c, sp, 0)
 		if err != nil {
 			return err
+		}
+		for k, v := range st {
+			c.CountN(k, v)
 		}
 		c.Emit(cs)
 		return nil
